@@ -3,13 +3,23 @@ sys.path.insert(0, os.path.join(os.path.dirname(os.path.abspath(__file__)), '..'
 from driver import *
 
 
+
+
+def stub_render(ex):
+    # renderPixel / sprite scan do not touch ticks/mode/ly/firstLine/enabled (frame condition proved in C15's harness: VerifPixelFrame, VerifScanFrame)
+    stub_func(ex, meth('ppu', 'PPU', 'renderPixel'))
+    stub_func(ex, meth('ppu', 'PPU', 'checkOverlappingSprites'))
+
+
 def main(tier):
     ck = Check('C13', tier, ['ppu'], bodies='image,image/color,math/bits')
     ck.bounds = {'step': 'one machine cycle / one LCDC write from every (ticks, mode, ly, firstLine, enabled) state satisfying lcdInv, all other PPU/OAM/interrupt state arbitrary',
                  'induction': 'lcdInv holds after New() and is preserved by EndMachineCycle and WriteLCDC, so the per-cycle LY/mode relation holds at every cycle of every on/off schedule',
+                 'bounded cross-check': 'the first 240 machine cycles after New() and after an off/on switch at a symbolic point, executed with a concrete cycle count: LY/mode equal the closed form with line 0 lasting 112 cycles',
                  'outside': 'LY/STAT seen mid-instruction by the CPU (lcdon_timing), writes to LY'}
     ck.assumptions = ['lcdInv (proved inductive)']
-    ck.run([('ppu', e, {}) for e in ('VerifLcdInit', 'VerifLcdStep', 'VerifLcdSwitch')], timeout_ms=600000)
+    ck.stubs_used.append('PPU.renderPixel / checkOverlappingSprites -> no-op (their frame condition is an obligation of C15)')
+    ck.run([('ppu', e, {}) for e in ('VerifLcdInit', 'VerifLcdStep', 'VerifLcdSwitch')] + [('ppu', 'VerifLcdFirstLines', {'switch': s}) for s in (0, 1)], timeout_ms=600000, setup=stub_render, max_unwind=300)
     ck.finish(explanation='inductive per-cycle check of PPU.EndMachineCycle/WriteLCDC: LY = t/114 and mode = documented mode of frame index t, frame length 17556, first line after switch-on 2 cycles shorter, immediate off/on behaviour')
 
 
